@@ -69,6 +69,11 @@ func verifyFunc(P *Program, fi *FuncInfo, fn *ssa.Function) (vc *VC, rs []*Resul
 	}()
 	vc.run()
 	rs = vc.obligations()
+	if fi != nil && fi.fc.Timeout > 0 {
+		for _, r := range rs {
+			r.Timeout = fi.fc.Timeout
+		}
+	}
 	return
 }
 
@@ -160,7 +165,7 @@ func devCmd(args []string) {
 		}
 		allRs = append(allRs, rs...)
 	}
-	solveAll(allRs, *sec, false, 16)
+	solveAll(allRs, *sec, false, 8)
 	nOK := 0
 	for _, r := range allRs {
 		if r.Status == "unsat" {
